@@ -20,6 +20,8 @@ impl Property for C02 {
             Segment::enumerated("huge-mixed-spans", tier.pick(8, 48), &[11]),
             // irregular dense vectors with long second/third upper blocks (SelectSmall's per-upper-block arithmetic)
             Segment::enumerated("huge-dense-upper-blocks", tier.pick(3, 20), &[12]),
+            // inventory spans of exactly 2^32 - 1, 2^32, 2^32 + 1 (+1) bits: the 32/64-bit span boundary
+            Segment::enumerated("huge-exact-2^32-spans", 12, &[13]),
         ]
     }
     fn rule(&self) -> &'static str {
@@ -27,10 +29,10 @@ impl Property for C02 {
     }
     fn run(&self, data: &[u8], cx: &mut Ctx) -> R {
         let (mode, rest) = data.split_first().unwrap_or((&0, &[]));
-        if *mode == 9 || *mode == 11 || *mode == 12 {
+        if *mode == 9 || *mode == 11 || *mode == 12 || *mode == 13 {
             let mut b = [0u8; 8];
             b[..rest.len().min(8)].copy_from_slice(&rest[..rest.len().min(8)]);
-            let j = u64::from_le_bytes(b) + if *mode == 12 { 3000 } else if *mode == 11 { 2000 } else { 0 };
+            let j = u64::from_le_bytes(b) + if *mode == 13 { 4000 } else if *mode == 12 { 3000 } else if *mode == 11 { 2000 } else { 0 };
             cx.hash(&("huge", j));
             cx.describe(|| format!("huge case {j}: more than 2^32 bits, pattern {}", if j >= 3000 { 7 } else if j >= 2000 { 6 } else { j % 5 }));
             return crate::huge::select_case(cx, j);
